@@ -329,6 +329,33 @@ func RaiseReturned(p *core.Prog, r *core.Report) {
 					returned = true
 					break
 				}
+				if as, ok := m.(*ast.AssignStmt); ok && len(as.Lhs) == 1 && len(as.Rhs) == 1 {
+					// err := ctx.Raise(..) ... return err: the variable holds nothing else and a return
+					// statement with it as operand follows in the same block
+					if v := core.ObjOf(info, as.Lhs[0]); v != nil {
+						if blk, ok := par[ast.Node(as)].(*ast.BlockStmt); ok {
+							after := false
+							for _, st := range blk.List {
+								if st == ast.Stmt(as) {
+									after = true
+									continue
+								}
+								if !after {
+									continue
+								}
+								if rs, ok := st.(*ast.ReturnStmt); ok {
+									for _, res := range rs.Results {
+										if core.ObjOf(info, res) == v {
+											returned = true
+										}
+									}
+								}
+								break // only the statement right behind the assignment counts
+							}
+						}
+					}
+					break
+				}
 				if _, ok := m.(ast.Stmt); ok {
 					break
 				}
